@@ -14,9 +14,10 @@ def main():
     prop, k = sys.argv[1], sys.argv[2]
     checks = sys.argv[3:] or [prop]
     src = "/tmp/seed/%s/_seed/%s" % (prop, k)
-    dst = os.path.join(VERIF, "seeded", "%s-%s" % (prop, k))
+    rnd = os.environ.get("SEED_ROUND", "")
+    dst = os.path.join(VERIF, "seeded", "%s-%s%s" % (prop, rnd + "-" if rnd else "", k))
     wt = "/tmp/seedverify-%s-%s" % (prop, k)
-    meta = {"property": prop, "id": "%s-%s" % (prop, k), "ran": []}
+    meta = {"property": prop, "id": "%s-%s%s" % (prop, os.environ.get("SEED_ROUND", "") + "-" if os.environ.get("SEED_ROUND") else "", k), "ran": []}
     subprocess.run(["git", "-C", "/repo", "worktree", "remove", "--force", wt], stderr=subprocess.DEVNULL)
     subprocess.check_call(["git", "-C", "/repo", "worktree", "add", "-q", "--detach", wt, "HEAD"])
     try:
